@@ -105,6 +105,11 @@ PROBES = {
     'f7_ACCEPT_module_string_set_membership': (CV, "def extract_used_surfaces(volumes):", "_NAMES = {'a', 'b'}\n\n\ndef _known(name):\n    return name in _NAMES\n\n\ndef extract_used_surfaces(volumes):"),
     'f8_class_level_cache_dict': (CC, "    '''Class which contains methods to convert the Cell of MCNP in T4 Volume'''\n", "    '''Class which contains methods to convert the Cell of MCNP in T4 Volume'''\n\n    seen_cells = {0: 0}\n\n    def note(self, key):\n        self.seen_cells[key] = 1\n"),
     'f9_table_rebound_in_function': (CV, "def extract_used_surfaces(volumes):", "_TABLE = {'INTE': 0}\n\n\ndef _reset():\n    global _TABLE\n    _TABLE = {'UNION': 1}\n\n\ndef extract_used_surfaces(volumes):"),
+    # decorators
+    'r1_memo_decorator_closure': (K + 'Surface/ConversionSurfaceMCNPToT4.py', "def convert_mcnp_surface(", "def _memo(func):\n    table = {}\n\n    def wrapper(key, surfs):\n        if key not in table:\n            table[key] = func(key, surfs)\n        return table[key]\n    return wrapper\n\n\n@_memo\ndef convert_mcnp_surface("),
+    'r2_ACCEPT_registrar_decorator': (CV, "def extract_used_surfaces(volumes):", "_STAGES = {}\n\n\ndef _stage(name):\n    def decorator(func):\n        _STAGES[name] = func\n        return func\n    return decorator\n\n\n@_stage('used')\ndef extract_used_surfaces(volumes):"),
+    'r3_registrar_also_called_at_run_time': (CV, "def extract_used_surfaces(volumes):", "_STAGES = {}\n\n\ndef _stage(name):\n    def decorator(func):\n        _STAGES[name] = func\n        return func\n    return decorator\n\n\ndef _late(func):\n    return _stage('late')(func)\n\n\n@_stage('used')\ndef extract_used_surfaces(volumes):"),
+    'r4_table_filled_at_run_time': (CV, "def extract_used_surfaces(volumes):", "_STAGES = {}\n_STAGES['a'] = 1\n\n\ndef _fill(name):\n    _STAGES[name] = 2\n\n\ndef extract_used_surfaces(volumes):"),
     # allow-list wildcard: the text must still match, and only in that file
     'g1_pickle_dump_elsewhere': (CV, HEAD, "    import pickle\n    with open('x.cache', 'wb') as dicfile:\n        pickle.dump((dict_cell, skipped_cells), dicfile)\n" + HEAD),
     'n_ACCEPT_nothing_changed': None,
